@@ -165,6 +165,61 @@ fn scenario_scripts(kind: usize, g: &mut Gen, snap: &Value, conns: &[String]) ->
                 }
             }
         }
+        // churn on an invite-only channel: the founder sets +i, invites, kicks and lifts +i again while the others
+        // leave, come back and talk
+        12 => {
+            if authed.len() >= 3 {
+                let nick_of = |c: &String| snap["conns"][c.as_str()]["nick"][0].as_str().unwrap_or("x").to_string();
+                let last = authed[authed.len() - 1].clone();
+                m.insert(authed[0].clone(), vec![cmd("MODE", vec![vec![s("#one")], vec![s("+i")]]), cmd("INVITE", vec![vec![nick_of(&last)], vec![s("#one")]]),
+                                                 cmd("KICK", vec![vec![s("#one")], vec![nick_of(&authed[1])]]), cmd("MODE", vec![vec![s("#one")], vec![s("-i")]])]);
+                m.insert(authed[1].clone(), vec![cmd("TOPIC", vec![vec![s("#one")], vec![format!("topic of {}", authed[1])]]), cmd("JOIN", vec![vec![s("#one")]]),
+                                                 cmd("NAMES", vec![vec![s("#one")]])]);
+                for c in authed.iter().skip(2) {
+                    m.insert(c.clone(), vec![cmd("PART", vec![vec![s("#one")]]), cmd("JOIN", vec![vec![s("#one")]]), cmd("PRIVMSG", vec![vec![s("#one")], vec![format!("{}-in?", c)]]),
+                                             cmd("JOIN", vec![vec![s("#one")]])]);
+                }
+            }
+        }
+        // key and limit changes race with joins and parts of the limited channel
+        13 => {
+            if let Some(first) = authed.get(0) {
+                m.insert(first.clone(), vec![cmd("MODE", vec![vec![s("#lim")], vec![s("+k"), s("key")]]), cmd("MODE", vec![vec![s("#lim")], vec![s("-l")]]),
+                                             cmd("MODE", vec![vec![s("#lim")], vec![s("+l"), s("3")]]), cmd("MODE", vec![vec![s("#lim")], vec![s("-k"), s("key")]])]);
+            }
+            for (i, c) in authed.iter().enumerate().skip(1) {
+                let sc = if i % 2 == 0 {
+                    vec![cmd("JOIN", vec![vec![s("#lim")]]), cmd("JOIN", vec![vec![s("#lim")], vec![s("key")]]), cmd("NAMES", vec![vec![s("#lim")]])]
+                } else {
+                    vec![cmd("JOIN", vec![vec![s("#lim")], vec![s("key")]]), cmd("PART", vec![vec![s("#lim")]]), cmd("JOIN", vec![vec![s("#lim")]])]
+                };
+                m.insert(c.clone(), sc);
+            }
+        }
+        // a nickname is given up (QUIT) while a registered user renames to it, fresh connections claim it and
+        // others look it up and write to it
+        14 => {
+            if authed.len() >= 3 {
+                let freed = snap["conns"][authed[1].as_str()]["nick"][0].as_str().unwrap_or("x").to_string();
+                m.insert(authed[1].clone(), vec![cmd("PRIVMSG", vec![vec![s("#one")], vec![s("leaving")]]), cmd("QUIT", vec![])]);
+                m.insert(authed[2].clone(), vec![cmd("NICK", vec![vec![freed.clone()]]), cmd("PRIVMSG", vec![vec![s("#one")], vec![s("renamed?")]])]);
+                m.insert(authed[0].clone(), vec![cmd("WHOIS", vec![vec![freed.clone()]]), cmd("PRIVMSG", vec![vec![freed.clone()], vec![s("who are you")]]),
+                                                 cmd("ISON", vec![vec![freed.clone()]])]);
+                for c in authed.iter().skip(3) {
+                    m.insert(c.clone(), vec![cmd("NICK", vec![vec![freed.clone()]]), cmd("WHOWAS", vec![vec![freed.clone()]])]);
+                }
+                for c in unauth.iter() {
+                    let idx = CONNS.iter().position(|x| *x == c.as_str()).unwrap_or(0) + 1;
+                    let mut sc = vec![];
+                    if g.profile == "pw" || g.profile == "full" {
+                        sc.push(cmd("PASS", vec![vec![s("srvpass")]]));
+                    }
+                    sc.push(cmd("NICK", vec![vec![freed.clone()]]));
+                    sc.push(cmd("USER", vec![vec![format!("u{}", idx)], vec![s("R")]]));
+                    m.insert(c.clone(), sc);
+                }
+            }
+        }
         // random scripts
         _ => {
             for c in conns {
@@ -257,7 +312,7 @@ async fn run_rounds(id: &str, cfg: &Value, seed: u64, rounds: usize, nconn: usiz
             }
         }
         snap = sess.snapshot().await;
-        let kind = if kinds.is_empty() { (seed as usize + r) % 12 } else { kinds[(seed as usize + r) % kinds.len()] };
+        let kind = if kinds.is_empty() { (seed as usize + r) % 15 } else { kinds[(seed as usize + r) % kinds.len()] };
         if kind == 8 || kind == 9 {
             // make room for fresh registrations: three connections start over
             for c in conns.iter().skip(2) {
